@@ -34,6 +34,10 @@ impl<I: Interner> AggregateOps<I> for SlgContextOps<'_, I> {
         let CompleteAnswer { subst, ambiguous } = match answers.next_answer(&should_continue) {
             AnswerResult::NoMoreSolutions => {
                 // No answers at all
+                #[cfg(chalk_verif)]
+                chalk_ir::verif::emit("AggEnd", |f| {
+                    f.str("sol", "None").str("via", "first").int("n", 0);
+                });
                 return None;
             }
             AnswerResult::Answer(answer) => answer,
@@ -42,6 +46,10 @@ impl<I: Interner> AggregateOps<I> for SlgContextOps<'_, I> {
                 ambiguous: true,
             },
             AnswerResult::QuantumExceeded => {
+                #[cfg(chalk_verif)]
+                chalk_ir::verif::emit("AggEnd", |f| {
+                    f.str("sol", "Unknown").str("via", "firstquantum").int("n", 0);
+                });
                 return Some(Solution::Ambig(Guidance::Unknown));
             }
         };
@@ -50,14 +58,26 @@ impl<I: Interner> AggregateOps<I> for SlgContextOps<'_, I> {
         let next_answer = answers.peek_answer(&should_continue);
         if next_answer.is_quantum_exceeded() {
             if subst.value.subst.is_identity_subst(interner) {
+                #[cfg(chalk_verif)]
+                chalk_ir::verif::emit("AggEnd", |f| {
+                    f.str("sol", "Unknown").str("via", "peekquantum").int("n", 1);
+                });
                 return Some(Solution::Ambig(Guidance::Unknown));
             } else {
+                #[cfg(chalk_verif)]
+                chalk_ir::verif::emit("AggEnd", |f| {
+                    f.str("sol", "Suggested").str("via", "peekquantum").int("n", 1);
+                });
                 return Some(Solution::Ambig(Guidance::Suggested(
                     subst.map(interner, |cs| cs.subst),
                 )));
             }
         }
         if next_answer.is_no_more_solutions() && !ambiguous {
+            #[cfg(chalk_verif)]
+            chalk_ir::verif::emit("AggEnd", |f| {
+                f.str("sol", "Unique").str("via", "peeknomore").int("n", 1);
+            });
             return Some(Solution::Unique(subst));
         }
 
@@ -80,12 +100,20 @@ impl<I: Interner> AggregateOps<I> for SlgContextOps<'_, I> {
         let mut num_answers = 1;
         let guidance = loop {
             if subst.value.is_empty(interner) || is_trivial(interner, &subst) {
+                #[cfg(chalk_verif)]
+                chalk_ir::verif::emit("AggEnd", |f| {
+                    f.str("sol", "Unknown").str("via", "trivial").int("n", num_answers);
+                });
                 break Guidance::Unknown;
             }
 
             if !answers
                 .any_future_answer(|ref mut new_subst| new_subst.may_invalidate(interner, &subst))
             {
+                #[cfg(chalk_verif)]
+                chalk_ir::verif::emit("AggEnd", |f| {
+                    f.str("sol", "Definite").str("via", "nofuture").int("n", num_answers);
+                });
                 break Guidance::Definite(subst);
             }
 
@@ -102,14 +130,26 @@ impl<I: Interner> AggregateOps<I> for SlgContextOps<'_, I> {
                     self.identity_constrained_subst(root_goal)
                 }
                 AnswerResult::NoMoreSolutions => {
+                    #[cfg(chalk_verif)]
+                    chalk_ir::verif::emit("AggEnd", |f| {
+                        f.str("sol", "Definite").str("via", "nomore").int("n", num_answers);
+                    });
                     break Guidance::Definite(subst);
                 }
                 AnswerResult::QuantumExceeded => {
+                    #[cfg(chalk_verif)]
+                    chalk_ir::verif::emit("AggEnd", |f| {
+                        f.str("sol", "Suggested").str("via", "quantum").int("n", num_answers);
+                    });
                     break Guidance::Suggested(subst);
                 }
             };
             subst = merge_into_guidance(interner, &root_goal.canonical, subst, &new_subst);
             num_answers += 1;
+            #[cfg(chalk_verif)]
+            chalk_ir::verif::emit("AggMerge", |f| {
+                f.int("n", num_answers);
+            });
         };
 
         if let Some(expected_answers) = self.expected_answers {
